@@ -45,17 +45,42 @@ def fmtOut : Out → String
   | .data b => s!"D{b.length}:{(crc32 b).toNat}"
   | .err => "E"
 
+/-- one token of a history: a stream op, or `S<sector>:<count>` = sector-addressed read
+    (does not touch the stream state) -/
+inductive Tok where
+  | op (o : Op)
+  | sectors (s c : Nat)
+
+def parseTok (t : String) : Option Tok :=
+  if t.front = 'S' then
+    match ((t.drop 1).toString).splitOn ":" with
+    | [a, b] => do some (.sectors (← a.toNat?) (← b.toNat?))
+    | _ => none
+  else (parseOp t).map .op
+
 /-- run a history on the buffered stream over `rd`; stops after the first error -/
-def runStream (rd : Nat → Nat → Except Err Bytes) (size align : Nat) (toks : List String) : String :=
-  match toks.mapM parseOp with
+def runStreamSec (rd : Nat → Nat → Except Err Bytes) (sec : Option (Nat → Nat → Except Err Bytes))
+    (size align : Nat) (toks : List String) : String :=
+  match toks.mapM parseTok with
   | none => "bad-op"
-  | some ops =>
-    let outs := AS.run rd (AS.init size align) ops
-    let rec cut : List Out → List Out
+  | some ts =>
+    let rec go (s : AS) : List Tok → List Out
       | [] => []
-      | .err :: _ => [.err]
-      | o :: os => o :: cut os
-    "ok " ++ " ".intercalate ((cut outs).map fmtOut)
+      | .op o :: rest =>
+        let (s', out) := s.step rd o
+        match out with
+        | .err => [.err]
+        | _ => out :: go s' rest
+      | .sectors a c :: rest =>
+        match sec with
+        | none => [.err]
+        | some f => match f a c with
+          | .ok b => .data b :: go s rest
+          | .error _ => [.err]
+    "ok " ++ " ".intercalate ((go (AS.init size align) ts).map fmtOut)
+
+def runStream (rd : Nat → Nat → Except Err Bytes) (size align : Nat) (toks : List String) : String :=
+  runStreamSec rd none size align toks
 
 def natArg (s : String) : Except String Nat :=
   match s.toNat? with | some n => .ok n | none => .error s!"bad-nat {s}"
